@@ -306,6 +306,10 @@ def step (line : String) : String :=
         && words.all (fun x => !x.isEmpty && x.length ≤ w) && t.all (fun c => c.toNat < 128)
       if simple then (Json.mkObj [("ok", Json.str (String.ofList (Wrap.fillSimple w t)))]).compress
       else "{\"unmodelled\":\"text outside the simple class of textwrap.fill\"}"
+    | .ok "unwrap" =>
+      -- what `_set_name_and_type` (word_wrap on) reads back from wrapped, indented prose
+      let t := (optStr j "text").getD []
+      (Json.mkObj [("ok", Json.str (String.ofList (unwrapProse t)))]).compress
     | .ok "effect" =>
       -- the caller's description after an emitter ran on it (fix 79e7812: unchanged); "old": emit.class_ before the fix
       let ir := match j.getObjVal? "ir" with | .ok i => irOfJson i | _ => {}
